@@ -350,7 +350,10 @@ func RefReadFrame(r *RefReader, threshold int, maxUncompressed int) ([]byte, err
 	if err != nil {
 		return nil, &RefFrameError{"bad zlib header: " + err.Error()}
 	}
-	out, err := io.ReadAll(io.LimitReader(zr, int64(claimed)+1))
+	// claimed <= maxUncompressed here, so the pre-sized buffer is bounded by the cap
+	buf := bytes.NewBuffer(make([]byte, 0, int(claimed)+bytes.MinRead+1))
+	_, err = buf.ReadFrom(io.LimitReader(zr, int64(claimed)+1))
+	out := buf.Bytes()
 	if err != nil {
 		return nil, &RefFrameError{"inflate: " + err.Error()}
 	}
